@@ -72,14 +72,12 @@ Proof.
 Qed.
 
 (* strings.Index s sub : position of first occurrence, None for -1 *)
-Fixpoint index_from (fuel : nat) (s sub : str) (i : nat) : option nat :=
-  if has_prefix s sub then Some i else
-  match fuel, s with
-  | S f, _ :: s' => index_from f s' sub (S i)
-  | _, _ => None
+Fixpoint index (s sub : str) : option nat :=
+  if has_prefix s sub then Some 0%nat else
+  match s with
+  | [] => None
+  | _ :: s' => match index s' sub with Some i => Some (S i) | None => None end
   end.
-
-Definition index (s sub : str) : option nat := index_from (length s) s sub 0.
 
 Definition contains (s sub : str) : bool :=
   match index s sub with Some _ => true | None => false end.
@@ -154,11 +152,12 @@ Fixpoint join (l : list str) (sep : str) : str :=
   | a :: l' => a ++ sep ++ join l' sep
   end.
 
-(* strings.Replace s old new 1 *)
-Definition replace_first (s old new : str) : str :=
-  match index s old with
-  | Some i => firstn i s ++ new ++ skipn (i + length old) s
-  | None => s
+(* strings.Replace s old new 1 (old non-empty) *)
+Fixpoint replace_first (s old new : str) : str :=
+  if has_prefix s old then new ++ skipn (length old) s else
+  match s with
+  | [] => []
+  | x :: s' => x :: replace_first s' old new
   end.
 
 Definition trim_suffix (s suf : str) : str :=
@@ -169,57 +168,60 @@ Definition trim_prefix (s p : str) : str :=
 
 (* ---------- basic facts ---------- *)
 
-Lemma index_from_some fuel s sub i k :
-  index_from fuel s sub i = Some k -> (i <= k)%nat /\ has_prefix (skipn (k - i) s) sub = true.
-Proof.
-  revert s i; induction fuel as [|f IH]; intros s i; simpl.
-  - destruct (has_prefix s sub) eqn:E; [|destruct s; discriminate].
-    intros H; inversion H; subst. rewrite Nat.sub_diag. simpl. auto.
-  - destruct (has_prefix s sub) eqn:E.
-    + intros H; inversion H; subst. rewrite Nat.sub_diag. simpl. auto.
-    + destruct s as [|x s]; [discriminate|]. intros H. apply IH in H as [H1 H2]. split; [lia|].
-      replace (k - i)%nat with (S (k - S i)) by lia. simpl. exact H2.
-Qed.
-
 Lemma index_some s sub k :
   index s sub = Some k -> has_prefix (skipn k s) sub = true.
 Proof.
-  unfold index. intros H. apply index_from_some in H as [_ H]. rewrite Nat.sub_0_r in H. exact H.
-Qed.
-
-Lemma index_from_none fuel s sub i :
-  (length s <= fuel)%nat -> index_from fuel s sub i = None ->
-  forall k, has_prefix (skipn k s) sub = false.
-Proof.
-  revert s i; induction fuel as [|f IH]; intros s i Hl; simpl.
-  - destruct s; [|simpl in Hl; lia]. destruct (has_prefix [] sub) eqn:E; [discriminate|].
-    intros _ k. destruct k; simpl; exact E.
-  - destruct (has_prefix s sub) eqn:E; [discriminate|].
-    destruct s as [|x s].
-    + intros _ k. destruct k; simpl; exact E.
-    + intros H k. destruct k as [|k]; [exact E|]. simpl. eapply IH; [|exact H]. simpl in Hl. lia.
+  revert k; induction s as [|x s IH]; intros k; simpl.
+  - destruct (has_prefix [] sub) eqn:E; [|discriminate]. intros H; inversion H; subst. exact E.
+  - destruct (has_prefix (x :: s) sub) eqn:E.
+    + intros H; inversion H; subst. exact E.
+    + destruct (index s sub) as [i|] eqn:Ei; [|discriminate]. intros H; inversion H; subst. simpl. apply IH. reflexivity.
 Qed.
 
 Lemma index_none s sub : index s sub = None -> forall k, has_prefix (skipn k s) sub = false.
-Proof. unfold index. apply index_from_none. lia. Qed.
+Proof.
+  induction s as [|x s IH]; simpl.
+  - destruct (has_prefix [] sub) eqn:E; [discriminate|]. intros _ k. destruct k; exact E.
+  - destruct (has_prefix (x :: s) sub) eqn:E; [discriminate|].
+    destruct (index s sub) eqn:Ei; [discriminate|]. intros _ k. destruct k as [|k]; [exact E|]. simpl. apply IH. reflexivity.
+Qed.
 
 (* minimality of index *)
-Lemma index_from_min fuel s sub i k :
-  index_from fuel s sub i = Some k ->
-  forall j, (j < k - i)%nat -> has_prefix (skipn j s) sub = false.
+Lemma index_min s sub k :
+  index s sub = Some k -> forall j, (j < k)%nat -> has_prefix (skipn j s) sub = false.
 Proof.
-  revert s i; induction fuel as [|f IH]; intros s i; simpl.
-  - destruct (has_prefix s sub) eqn:E; [|destruct s; discriminate].
-    intros H j Hj; inversion H; subst. lia.
-  - destruct (has_prefix s sub) eqn:E.
+  revert k; induction s as [|x s IH]; intros k; simpl.
+  - destruct (has_prefix [] sub); [|discriminate]. intros H j Hj; inversion H; subst. lia.
+  - destruct (has_prefix (x :: s) sub) eqn:E.
     + intros H j Hj; inversion H; subst. lia.
-    + destruct s as [|x s]; [discriminate|]. intros H j Hj.
-      destruct j as [|j]; [exact E|]. simpl. eapply IH; [exact H|].
-      pose proof (index_from_some _ _ _ _ _ H) as [Hle _]. lia.
+    + destruct (index s sub) as [i|] eqn:Ei; [|discriminate]. intros H j Hj; inversion H; subst.
+      destruct j as [|j]; [exact E|]. simpl. apply (IH i); [reflexivity | lia].
 Qed.
 
 Lemma index_prefix_zero s p : has_prefix s p = true -> index s p = Some 0%nat.
-Proof. unfold index. destruct s; simpl; intros ->; reflexivity. Qed.
+Proof. destruct s; simpl; intros ->; reflexivity. Qed.
+
+Lemma index_bound s sub k : index s sub = Some k -> (k <= length s)%nat.
+Proof.
+  revert k; induction s as [|x s IH]; intros k; simpl.
+  - destruct (has_prefix [] sub); [|discriminate]. intros H; inversion H; lia.
+  - destruct (has_prefix (x :: s) sub); [intros H; inversion H; lia|].
+    destruct (index s sub) as [i|]; [|discriminate]. intros H; inversion H; subst. specialize (IH i eq_refl). lia.
+Qed.
+
+(* the part before the first occurrence is copied, the occurrence replaced, the rest kept *)
+Lemma replace_first_index s old new :
+  replace_first s old new =
+  match index s old with
+  | Some i => firstn i s ++ new ++ skipn (i + length old) s
+  | None => s
+  end.
+Proof.
+  induction s as [|x s IH]; simpl.
+  - destruct (has_prefix [] old); [|reflexivity]. simpl. reflexivity.
+  - destruct (has_prefix (x :: s) old); [reflexivity|].
+    rewrite IH. destruct (index s old); reflexivity.
+Qed.
 
 Lemma mem_byte_spec c cut : mem_byte c cut = true <-> In c cut.
 Proof.
